@@ -567,3 +567,42 @@ def _end(self, ghost):
 
 
 Item.at_end = _end
+
+
+def _for_loop(self, n, spec, ghost_iter='gi', pat_var='p__'):
+    """n-th loop must be `for PAT in EXPR {`.  Names the ghost iterator (`for x in gi: EXPR`), attaches the invariant, and -- desugaring 1 for
+    loop bindings -- replaces an array pattern `[a, b]` by a variable and `let a = p__[0]; let b = p__[1];` at the start of the body."""
+    if not SPEC_CLAUSE.match(spec):
+        raise NotGhost('%s: loop spec must start with a clause keyword' % self.name)
+    rx = re.compile(r'\b(while|for|loop)\b')
+    pos = self.body_open + 1
+    found = None
+    for _ in range(n):
+        m = rp.find_code_re(self.orig, self.mask, rx, pos)
+        if not m:
+            raise LostAnchor(self.name, 'loop #%d not found' % n, True)
+        found = m
+        pos = m.end()
+    if found.group(1) != 'for':
+        raise LostAnchor(self.name, 'loop #%d is not a for loop' % n, True)
+    b = rp.next_open_brace(self.orig, self.mask, found.end())
+    head = self.orig[found.end():b]
+    mm = re.match(r'(\s*)(\[[^\]]*\]|\w+)(\s+in\s+)', head)
+    if not mm:
+        raise LostAnchor(self.name, 'for loop #%d: cannot parse binding' % n, True)
+    pat = mm.group(2)
+    pstart = found.end() + mm.start(2)
+    in_end = found.end() + mm.end(3)
+    lets = ''
+    if pat.startswith('['):
+        names = [x.strip() for x in pat[1:-1].split(',') if x.strip()]
+        self._add(pstart, 'pat', len(pat), pat_var)
+        lets = ' '.join('let %s = %s[%d];' % (nm, pat_var, k) for k, nm in enumerate(names) if nm != '_')
+    self._add(in_end, 'ins', 0, ghost_iter + ': ')
+    self._add(b, 'ins', 0, '\n            ' + spec.strip() + '\n        ')
+    if lets:
+        self._add(b + 1, 'patlet', 0, ' ' + lets)
+    return self
+
+
+Item.for_loop = _for_loop
